@@ -605,7 +605,7 @@ def oracle(case, real, model):
                     if r[i][j] != m[i][j]:
                         return "Equal(descriptor %d, descriptor %d) of the family: real %d, required %d" % (i, j, r[i][j], m[i][j])
             if r[n] != m[n]:
-                return "Equal modified one of its arguments"
+                return "Equal(nil) returned true" if r[n] == 2 else "Equal modified one of its arguments"
         if f[0] == "seg.close1n":
             names = ["CanClose(d, o)", "d.IsIn()", "d.IsOut()", "o.IsIn()", "o.IsOut()"]
             for k in range(5):
